@@ -151,6 +151,39 @@ func (ctx *formatCtx) insert(name string) {
 	ctx.scope.Insert(o)
 }
 
+// insertIdents declares the identifiers of a `:=` statement, a range clause or a
+// lambda parameter list in the current scope (non-identifiers and `_` are skipped).
+func (ctx *formatCtx) insertIdents(exprs ...ast.Expr) {
+	for _, expr := range exprs {
+		if id, ok := expr.(*ast.Ident); ok && id != nil && id.Name != "_" {
+			ctx.insert(id.Name)
+		}
+	}
+}
+
+// insertLambdaParams declares the parameters of a lambda expression or the
+// variables of a for-in phrase.
+func (ctx *formatCtx) insertLambdaParams(names []*ast.Ident) {
+	for _, name := range names {
+		if name != nil && name.Name != "_" {
+			ctx.insert(name.Name)
+		}
+	}
+}
+
+// insertFields declares the names of a receiver, parameter or result list.
+func (ctx *formatCtx) insertFields(flds *ast.FieldList) {
+	if flds != nil {
+		for _, fld := range flds.List {
+			for _, name := range fld.Names {
+				if name.Name != "_" {
+					ctx.insert(name.Name)
+				}
+			}
+		}
+	}
+}
+
 func (ctx *formatCtx) enterBlock() *types.Scope {
 	old := ctx.scope
 	ctx.scope = types.NewScope(old, token.NoPos, token.NoPos, "")
@@ -223,6 +256,7 @@ func formatGenDecl(ctx *formatCtx, v *ast.GenDecl) {
 	case token.TYPE:
 		for _, item := range v.Specs {
 			spec := item.(*ast.TypeSpec)
+			ctx.insert(spec.Name.Name)
 			formatType(ctx, spec.Type, &spec.Type)
 		}
 	}
@@ -230,7 +264,19 @@ func formatGenDecl(ctx *formatCtx, v *ast.GenDecl) {
 
 func formatFuncDecl(ctx *formatCtx, v *ast.FuncDecl) {
 	formatFuncType(ctx, v.Type)
-	formatBlockStmt(ctx, v.Body)
+	formatFuncBody(ctx, v.Recv, v.Type, v.Body)
+}
+
+// formatFuncBody formats a function body in a scope that declares the receiver,
+// the parameters and the named results.
+func formatFuncBody(ctx *formatCtx, recv *ast.FieldList, t *ast.FuncType, body *ast.BlockStmt) {
+	old := ctx.enterBlock()
+	defer ctx.leaveBlock(old)
+
+	ctx.insertFields(recv)
+	ctx.insertFields(t.Params)
+	ctx.insertFields(t.Results)
+	formatBlockStmt(ctx, body)
 }
 
 /*
